@@ -1379,6 +1379,16 @@ pub(crate) mod verif_probe {
                     json!({"gets": gets})
                 }))
             }
+            "pool_row" => {
+                let f = |k: &str| v["fields"][k].as_u64().unwrap_or(0);
+                let ps = crate::stats::pool::PoolStats { identifier: PoolIdentifier::new("dbx", "ux"), mode: PoolMode::Transaction,
+                    cl_idle: f("cl_idle"), cl_active: f("cl_active"), cl_waiting: f("cl_waiting"), cl_cancel_req: f("cl_cancel_req"),
+                    sv_active: f("sv_active"), sv_idle: f("sv_idle"), sv_used: f("sv_used"), sv_tested: f("sv_tested"), sv_login: f("sv_login"), maxwait: f("maxwait") };
+                let header: Vec<String> = crate::stats::pool::PoolStats::generate_header().iter().map(|(n, _)| n.to_string()).collect();
+                let mut fields = v["fields"].clone();
+                if let Some(o) = fields.as_object_mut() { o.remove("maxwait"); }
+                Some(json!({"header": header, "row": ps.generate_row(), "fields": fields}))
+            }
             "admin_ban" => {
                 // a registered pool (primary h0, replicas h1 h2) with a given ban list; the admin commands through the real handle_admin
                 let rt = tokio::runtime::Builder::new_multi_thread().worker_threads(2).enable_all().build().unwrap();
